@@ -909,6 +909,13 @@ ErrorCode FlexPath::to_gds(FILE* out, double scaling) {
             big_endian_swap32((uint32_t*)coords.items, coords.count);
 
             uint64_t total = point_array.count;
+            if (total > 8190) {
+                if (error_logger)
+                    fputs(
+                        "[GDSTK] Paths with more than 8190 points are not supported by the official GDSII specification. This GDSII file might not be compatible with all readers.\n",
+                        error_logger);
+                error_code = ErrorCode::UnofficialSpecification;
+            }
             uint64_t i0 = 0;
             while (i0 < total) {
                 uint64_t i1 = total < i0 + 8190 ? total : i0 + 8190;
